@@ -15,7 +15,7 @@
 # Copyright (c) 2020-2021 Antmicro <www.antmicro.com>
 # SPDX-License-Identifier: BSD-2-Clause
 
-from math import ceil
+from math import ceil, floor
 from collections import namedtuple
 
 from migen import *
@@ -329,7 +329,7 @@ class SDRAMModule:
             tRP   = self.ck_ns_to_cycles(self.get("tRP")),
             tRCD  = self.ck_ns_to_cycles(self.get("tRCD")),
             tWR   = self.ck_ns_to_cycles(self.get("tWR")),
-            tREFI = self.ck_ns_to_cycles(self.get("tREFI", fine_refresh_mode), margin=False),
+            tREFI = self.ns_to_cycles_max(self.get("tREFI", fine_refresh_mode).ns),
             tRFC  = self.ck_ns_to_cycles(self.get("tRFC", fine_refresh_mode)),
             tWTR  = self.ck_ns_to_cycles(self.get("tWTR")),
             tFAW  = None if self.get("tFAW") is None else self.ck_ns_to_cycles(self.get("tFAW")),
@@ -384,6 +384,10 @@ class SDRAMModule:
         clk_period_ns = 1e9/self.clk_freq
         t += self.margin if margin else 0
         return ceil(t/clk_period_ns)
+
+    def ns_to_cycles_max(self, t):
+        # For maximum-type timings (tREFI): round down so the interval never exceeds the datasheet value.
+        return floor(t*self.clk_freq/1e9)
 
     def ck_to_cycles(self, c):
         return ceil(c/self.rate_frac.denom)
